@@ -116,6 +116,39 @@ theorem parseEntry_render (le : Bool) (v : Nat) (e : Entry) (k : Option Nat)
     simp only [List.append_nil] at this
     simp [this, Spec.effKvno, Spec.kvnoTail]
 
+/-- Fields after the 32-bit key version of a record (the record's length delimits it; Heimdal writes a
+    32-bit flags word there, MIT's reader skips whatever follows) do not change the entry that is read:
+    the key version stays the 32-bit one, not the 8-bit field. -/
+theorem parseEntry_tail (le : Bool) (v : Nat) (e : Entry) (x : Nat) (t : Bytes)
+    (h : WFEntry v e (some x)) :
+    Impl.parseEntry le v (Spec.renderEntryBody le v e (some x) ++ t)
+      = .ok { e with kvno := Spec.effKvno e (some x), nameType := if v = 1 then 0 else e.nameType } := by
+  obtain ⟨h1, h2, h3, h4, h5, h6, h7, h8, h9, _, _⟩ := h
+  unfold Impl.parseEntry Spec.renderEntryBody
+  simp only [List.append_assoc]
+  have hp := parsePrincipal_render le v e
+    (enc32 le e.ts ++ ([UInt8.ofNat e.kvno8] ++ (enc16 le e.etype ++ (Spec.counted le e.key ++
+      (Spec.kvnoTail le (some x) ++ t))))) h1 h2 h3 h4
+  simp only [List.append_assoc] at hp
+  rw [hp]
+  simp only
+  rw [dec32_enc32 le _ h5]
+  simp only [List.cons_append, List.nil_append, dec8]
+  rw [dec16_enc16 le _ h7]
+  simp only
+  rw [counted_render le _ _ h8]
+  simp only [u8_ofNat_toNat_lt _ h6]
+  have hx := h9 x rfl
+  have := dec32_enc32 le x hx t
+  simp [this, Spec.effKvno, Spec.kvnoTail, enc32_length]
+
+/-- … and so the tail is invisible: with or without it the same entry is read. -/
+theorem parseEntry_tail_irrelevant (le : Bool) (v : Nat) (e : Entry) (x : Nat) (t : Bytes)
+    (h : WFEntry v e (some x)) :
+    Impl.parseEntry le v (Spec.renderEntryBody le v e (some x) ++ t)
+      = Impl.parseEntry le v (Spec.renderEntryBody le v e (some x)) := by
+  rw [parseEntry_tail le v e x t h, parseEntry_render le v e (some x) h]
+
 /-! ## the record loop -/
 
 theorem loop_render (le : Bool) (v : Nat) (items : List Spec.Item) (acc : List Entry) (fuel : Nat)
